@@ -264,6 +264,12 @@ inductive CmpOut
   | incompat
   deriving DecidableEq, Repr
 
+/-- the convertible-units arm of `Numeric::partial_cmp` (commit 02e3b12): the comparison of
+`self` with the converted `other`, made `Equal` also when converting the other way round
+finds the two equal (`Number::eq` is `cmp = some .eq`) -/
+def cmpBothWays (res : Option Ordering) (back : Bool) : Option Ordering :=
+  if res ≠ some .eq ∧ back = true then some .eq else res
+
 /-- `impl PartialOrd for Numeric` -/
 def numCmp {α} [UNum α] (q : UQuirks) (a b : Numeric α) : CmpOut :=
   if a.u = b.u then .ord (cmp a.v b.v)
@@ -273,7 +279,11 @@ def numCmp {α} [UNum α] (q : UQuirks) (a b : Numeric α) : CmpOut :=
     | o => .ord o
   else
     match asUnitset q b a.u with
-    | some scaled => .ord (cmp a.v scaled)
+    | some scaled =>
+      .ord (cmpBothWays (cmp a.v scaled)
+        (match asUnitset q a b.u with
+         | some back => cmp back b.v == some .eq
+         | none => false))
     | none => .incompat
 
 /-- `impl PartialEq for Numeric` (`partial_cmp == Some(Equal)`).  A unitless number is
@@ -284,7 +294,11 @@ def numEq {α} [UNum α] (q : UQuirks) (a b : Numeric α) : Bool :=
   else if isNone a.u || isNone b.u then false
   else
     match asUnitset q b a.u with
-    | some scaled => cmp a.v scaled == some .eq
+    | some scaled =>
+      cmpBothWays (cmp a.v scaled)
+        (match asUnitset q a b.u with
+         | some back => cmp back b.v == some .eq
+         | none => false) == some .eq
     | none => false
 
 /-- outcome of `Operator::eval` on two numbers -/
